@@ -69,7 +69,7 @@ Section C01.
   (* out-of-range r or s is rejected before anything else is looked at, even an off-curve key (None) *)
   Theorem C01_verify_rejects_out_of_range : forall (Qo : option pt) (z r s : Z),
     ~ (1 <= r < n /\ 1 <= s < n) -> verify Qo z r s = Ret false.
-  Proof. exact (verify_rejects pt add smul G n coords n_prime). Qed.
+  Proof. exact (verify_rejects pt add smul G n coords). Qed.
 
   (* low-S symmetry (used by C05): (r, n - s) is judged exactly like (r, s), for all inputs *)
   Theorem C01_verify_low_s_symmetry : forall (Q : pt) (z r s : Z),
@@ -92,7 +92,7 @@ Section C01.
   (* out-of-range signatures recover nothing *)
   Theorem C01_recover_rejects_out_of_range : forall (z r s : Z) (y_parity : option Z),
     ~ (1 <= r < n /\ 1 <= s < n) -> recover z r s y_parity = Ret [].
-  Proof. exact (recover_empty pt add smul G n coords n_prime lift_x). Qed.
+  Proof. exact (recover_empty pt add smul G n lift_x). Qed.
 
   (* completeness: every key Q under which (r, s) verifies with a sum point of abscissa exactly r (not r + n)
      is returned, and alone when the parity of that point's ordinate is passed *)
@@ -147,7 +147,7 @@ Section C01.
   Theorem C01_sign_total_partial : forall (fuel : nat) (d z k : Z) (e : pyexn),
     sign_loop fuel d z k = Raise e ->
     e = E_TYPE /\ exists j, k <= j /\ coords (smul j G) = None /\ forall i, k <= i < j -> sign_step d z i = Ret None.
-  Proof. exact (sign_loop_raise pt add neg O smul G n coords laws n_prime). Qed.
+  Proof. exact (fun fuel d z => sign_loop_raise pt add neg O smul G n coords laws n_prime d z fuel). Qed.
 End C01.
 
 (* injectivity of the nonce input: the HMAC message int2octets(x) || bits2octets(h1) of RFC 6979 steps d/f determines
@@ -199,9 +199,9 @@ Example C01_hypotheses_satisfiable :
 Proof. exact toy_curves_satisfy_hypotheses. Qed.
 
 Example C01_toy_signature :
-  toy_sign_with_k toy13 5 3 6 4 = Ret (6, 12, 0) /\
-  toy_verify toy13 (Some (psmul toy13 3 (pG toy13))) 6 6 12 = Ret true /\
-  toy_verify toy13 (Some (psmul toy13 4 (pG toy13))) 6 6 12 = Ret false.
+  toy_sign_with_k toy13 5 3 6 4 = Ret (4, 11, 1) /\
+  toy_verify toy13 (Some (psmul toy13 3 (pG toy13))) 6 4 11 = Ret true /\
+  toy_verify toy13 (Some (psmul toy13 4 (pG toy13))) 6 4 11 = Ret false.
 Proof. vm_compute. repeat split; reflexivity. Qed.
 
 Print Assumptions C01_sign_verifies.
